@@ -15,7 +15,7 @@ Definition sh_sandbox_arms : list ((bool * string) * list string) :=
   [((false, "sandbox_log?"), ["$"]); ((false, "no_sandbox"), (@nil (string)))].
 (* bash: per function, the literals written to the channel / compared with a line read *)
 Definition sh_fn_writes : list (string * list string) :=
-  [("__dump_metadata_keys", ["key DEFINED_PHASES="; "key "]); ("__ebd_exec_main", ["ebd!"; "failed sourcing exit handling functionality"; "failed sourcing isolated-functions.bash"; "failed"; "$"; "$"]); ("__ebd_ipc_cmd", ["$"; "$"; "$"; "$"; "$"]); ("__ebd_main_loop", ["phases succeeded"; "phases failed ebd::"; "preload_eclass "; "clear_preloaded_eclasses succeeded"; "metadata_path_received"; "phases succeeded"; "phases failed "; "yep!"]); ("__ebd_process_ebuild_phases", ["env_receiving_failed"; "env_received"; "logging_ack"; "yep!"]); ("__ebd_sigint_handler", ["SIGINT"]); ("__ebd_sigterm_handler", ["SIGTERM"]); ("__ebd_write_array", [""]); ("__execute_phases", ["receive_env "; "receive_env "]); ("__internal_inherit", ["request_inherit "]); ("__request_sandbox_summary", ["__request_sandbox_summary "]); ("__source_bashrcs", ["request_bashrcs"; "failed"; "next"]); ("die", ["dying "; "dead"])].
+  [("__dump_metadata_keys", ["key DEFINED_PHASES="; "key "]); ("__ebd_exec_main", ["ebd!"; "failed sourcing exit handling functionality"; "failed sourcing isolated-functions.bash"; "failed"; "$"; "$"]); ("__ebd_ipc_cmd", ["$"; "$"; "$"; "$"; "$"]); ("__ebd_main_loop", ["phases succeeded"; "phases failed ebd::"; "preload_eclass "; "clear_preloaded_eclasses succeeded"; "metadata_path_received"; "phases succeeded"; "phases failed "; "yep!"]); ("__ebd_process_ebuild_phases", ["env_receiving_failed"; "env_received"; "logging_ack"; "yep!"]); ("__ebd_sigint_handler", ["SIGINT"]); ("__ebd_sigterm_handler", ["SIGTERM"]); ("__ebd_write_array", [""]); ("__execute_phases", ["receive_env "; "receive_env "]); ("__internal_inherit", ["request_inherit "]); ("__request_sandbox_summary", ["request_sandbox_summary "]); ("__source_bashrcs", ["request_bashrcs"; "failed"; "next"]); ("die", ["dying "; "dead"])].
 Definition sh_fn_reads : list (string * list string) :=
   [("__ebd_exec_main", ["ebd?"]); ("__ebd_process_ebuild_phases", ["end_receiving_env"]); ("__internal_inherit", ["path"; "transfer"]); ("__request_sandbox_summary", ["end_sandbox_summary"]); ("__source_bashrcs", ["end_request"; "path"; "transfer"])].
 (* python: per function, the literals passed to write() (first line, up to the first formatted
@@ -23,7 +23,7 @@ Definition sh_fn_reads : list (string * list string) :=
 Definition py_fn_writes : list (string * list string) :=
   [("__init__", ["ebd?"; "sandbox_log?"; "no_sandbox"]); ("_ensure_metadata_paths", ["set_metadata_path "]); ("_preload_eclass", ["preload_eclass "]); ("_run_depend_like_phase", ["$"]); ("clear_preloaded_eclasses", ["clear_preloaded_eclasses"]); ("ebd._request_bashrcs", ["path"; "end_request"]); ("ebd.run_generic_phase", ["$"]); ("inherit_handler", ["path"; "$"; "transfer"; "$"]); ("is_responsive", ["alive"]); ("run_phase", ["process_ebuild "; "set_sandbox_state "; "start_processing"]); ("sandbox_summary", ["end_sandbox_summary"; "end_sandbox_summary"; "$"; "$"; "$"; "$"; "end_sandbox_summary"]); ("send_env", ["start_receiving_env file "; "start_receiving_env bytes "]); ("set_logfile", ["logging "]); ("shutdown_processor", ["shutdown_daemon"])].
 Definition py_fn_expects : list (string * list string) :=
-  [("__init__", ["ebd!"]); ("_ensure_metadata_paths", ["metadata_path_received"]); ("_preload_eclass", ["preload_eclass succeeded"]); ("clear_preloaded_eclasses", ["clear_preload_eclasses succeeded"]); ("ebd._request_bashrcs", ["next"]); ("is_responsive", ["yep!"]); ("send_env", ["env_received"]); ("set_logfile", ["logging_ack"])].
+  [("__init__", ["ebd!"]); ("_ensure_metadata_paths", ["metadata_path_received"]); ("_preload_eclass", ["preload_eclass succeeded"]); ("clear_preloaded_eclasses", ["clear_preloaded_eclasses succeeded"]); ("ebd._request_bashrcs", ["next"]); ("is_responsive", ["yep!"]); ("send_env", ["env_received"]); ("set_logfile", ["logging_ack"])].
 Definition py_handlers : list string := ["request_sandbox_summary"; "prob"; "env_receiving_failed"; "failed"; "SIGINT"; "SIGTERM"; "dying"; "phases"].
 Definition py_intercepts : list string := ["SIGINT"; "SIGTERM"; "dying"].
 Definition py_dead : string := "dead".
